@@ -232,6 +232,11 @@ Proof.
     apply cfg_str_eqb_refl.
 Qed.
 
+Lemma alignment_print_parse : forall idx pre, aln_printable idx pre = true ->
+  aln_from_string (aln_to_string idx pre) = Ok (idx, pre) /\
+  wf_align (aln_to_string idx pre) = true.
+Proof. intros idx pre H. split; [apply aln_print_parse|apply wf_align_print]; exact H. Qed.
+
 Lemma digits_no_quote : forall s, forallb is_digit s = true -> contains_char QUOTE s = false.
 Proof.
   induction s as [|c s IH]; intros H; [reflexivity|].
@@ -751,10 +756,10 @@ Section DecStore.
     unfold written_i, written in Iit.
     destruct (is_instance o && missing_concept (ttgt o)) eqn:Hw; [contradiction|].
     destruct Iit as [Eit|[]].
-    unfold cedge_aitem in Eit. injection Eit as E1 E2.
-    assert (Ek : cedge_triple st w e = edge_of o) by (first [exact E1|symmetry; exact E1]).
-    assert (Ee : snd e = keep_epis (epis_of g x)) by (first [exact E2|symmetry; exact E2]).
-    clear E1 E2.
+    unfold cedge_aitem in Eit.
+    assert (Ek : cedge_triple st w e = edge_of o) by congruence.
+    assert (Ee : snd e = keep_epis (epis_of g x)) by congruence.
+    clear Eit.
     destruct (is_instance x) eqn:Hi.
     - destruct Hpre as [->|[_ F]]; [|congruence].
       destruct Ho as [->|[_ F]]; [|congruence].
@@ -781,7 +786,8 @@ Section DecStore.
     pose proof (expressed_content m x (written o) Dm (colon_g x Ix)
                   (fun Hi => wf_invertible m g Wg x Ix Hi) Ex) as C.
     unfold written in C. rewrite Hw in C. unfold tree_content in C. cbn [map] in C.
-    destruct (is_written x); [|discriminate]. inversion C as [C1].
+    destruct (is_written x); [|discriminate].
+    assert (C1 : tkey (deinvert m (unslash (edge_of o))) = tkey (deinvert m x)) by congruence.
     unfold tau, Kx. rewrite C1. reflexivity.
   Qed.
 
@@ -804,7 +810,7 @@ Section DecStore.
     destruct (lex_triple g Lg x Ix) as (L1 & L2 & L3).
     destruct (is_instance x) eqn:Hi.
     - left. destruct Ho as [->|[_ F]]; [|congruence]. rewrite Hi in *. cbn [andb] in Hw.
-      split; [reflexivity|]. split; [reflexivity|]. split; [exact E1|].
+      split; [reflexivity|]. split; [reflexivity|]. split; [exact E1|]. subst r.
       pose proof (slash_edges_ca es (SLASHS, t, ep) (Sst w es Iw) Ie eq_refl) as Ca.
       unfold is_ca in Ca. cbn [fst snd] in Ca. destruct t as [a|j]; [|discriminate].
       exists a. auto.
@@ -820,4 +826,1145 @@ Section DecStore.
         change (trole (invert m x)) with (invert_role m (trole x)).
         repeat (split; [assumption|]). right. auto.
   Qed.
+
+  (* ---- what is appended to the role of an edge ---- *)
+  Lemma raln_text_eq : forall ep, raln_text ep = concat (map epi_str (filter is_raln ep)).
+  Proof. reflexivity. Qed.
+  Lemma aln_text_eq : forall ep, aln_text ep = concat (map epi_str (filter is_aln ep)).
+  Proof. reflexivity. Qed.
+
+  Lemma printable_parts : forall x, In x (triples g) ->
+    let es := epis_of g x in
+    forallb epi_printable es = true /\
+    Nat.leb (length (filter is_aln es)) 1 = true /\ Nat.leb (length (filter is_raln es)) 1 = true /\
+    (existsb is_raln es = true -> is_instance x = false) /\
+    (existsb is_aln es = true -> is_astr (ttgt x) = true).
+  Proof.
+    intros x Ix es. pose proof (printable_x x Ix) as P. unfold epis_printable in P. fold es in P.
+    apply andb_true_iff in P. destruct P as [P P5]. apply andb_true_iff in P. destruct P as [P P4].
+    apply andb_true_iff in P. destruct P as [P P3]. apply andb_true_iff in P. destruct P as [P1 P2].
+    repeat (split; [assumption|]). split.
+    - intros H. rewrite H in P4. simpl in P4. apply negb_true_iff in P4. exact P4.
+    - intros H. rewrite H in P5. simpl in P5. exact P5.
+  Qed.
+
+  Lemma edge_role : forall w es r t ep, In (w, es) st -> In (r, t, ep) es ->
+    role_name (r ++ raln_text ep) = role_name r /\
+    snd (proc_role (r ++ raln_text ep)) = filter is_raln ep /\
+    is_ok (process_role (r ++ raln_text ep)) = true /\
+    str_eqb (r ++ raln_text ep) SLASHS = str_eqb r SLASHS /\
+    (str_eqb r SLASHS = true -> r ++ raln_text ep = SLASHS /\ exists a, t = CA a) /\
+    (str_eqb r SLASHS = false ->
+       wf_role (r ++ raln_text ep) = true /\ role_name r = r /\
+       lex_role r = true /\ str_eqb r INSTANCE = false /\ role_stable m r = true).
+  Proof.
+    intros w es r t ep Iw Ie.
+    destruct (edge_class_i w es r t ep Iw Ie) as (x & Ix & Eep & _ & [A|B]).
+    - destruct A as (Hi & -> & _ & a & -> & _).
+      destruct (printable_parts x Ix) as (_ & _ & _ & P4 & _).
+      assert (NR : filter is_raln ep = []).
+      { rewrite Eep, filter_raln_keep. apply existsb_filter_nil.
+        destruct (existsb is_raln (epis_of g x)) eqn:X; [|reflexivity].
+        rewrite (P4 eq_refl) in Hi. discriminate. }
+      rewrite raln_text_eq, NR. cbn [map concat]. rewrite app_nil_r.
+      repeat (split; [reflexivity|]). split; [intros _; split; [reflexivity|eauto]|discriminate].
+    - destruct B as (Hi & NS & Lr & Ni & St & _).
+      destruct (printable_parts x Ix) as (P1 & _ & P3 & _ & _).
+      destruct (lex_role_facts r Lr) as (Wr & Pr & _ & _).
+      assert (RN : role_name r = r) by (unfold role_name, proc_role; rewrite Pr; reflexivity).
+      rewrite raln_text_eq. rewrite Eep, filter_raln_keep.
+      destruct (one_marker is_raln (epis_of g x)) as [[F T]|(e & i & q & F & He & Pq & T)];
+        [intros [| | |] He; try discriminate He; eauto|exact P1|exact P3| |].
+      + rewrite F. cbn [map concat]. rewrite app_nil_r.
+        split; [reflexivity|]. split; [unfold proc_role; rewrite Pr; reflexivity|].
+        split; [rewrite Pr; reflexivity|]. split; [reflexivity|].
+        split; [intros Hs; congruence|]. intros _. auto.
+      + assert (Er : e = RAln i q).
+        { assert (Ie' : In e (filter is_raln (epis_of g x))) by (rewrite F; left; reflexivity).
+          apply filter_In in Ie'. destruct Ie' as [_ R]. destruct He as [-> | ->]; [discriminate|reflexivity]. }
+        rewrite T. rewrite F.
+        destruct (role_decorated r i q Lr Pq) as (W' & P' & NS' & _).
+        split; [unfold role_name, proc_role; rewrite P', Pr; reflexivity|].
+        split; [unfold proc_role; rewrite P', Er; reflexivity|].
+        split; [rewrite P'; reflexivity|]. split; [rewrite NS', NS; reflexivity|].
+        split; [intros Hs; congruence|]. intros _. auto.
+  Qed.
+
+  Definition dec_atom (a : atom) (ep : list epi) : atom :=
+    if existsb is_aln ep then AStr (atom_str a ++ aln_text ep) else a.
+
+  Lemma edge_atom : forall w es r a ep, In (w, es) st -> In (r, CA a, ep) es ->
+    lex_target g a = true /\
+    wf_atom_target (TAtom (strfy_atom (dec_atom a ep))) = true /\
+    process_atomic (strfy_atom (dec_atom a ep)) = Ok (strfy_atom a, filter is_aln ep).
+  Proof.
+    intros w es r a ep Iw Ie.
+    destruct (edge_class_i w es r (CA a) ep Iw Ie) as (x & Ix & Eep & _ & C).
+    destruct (lex_triple g Lg x Ix) as (L1 & L2 & L3).
+    destruct (printable_parts x Ix) as (P1 & P2 & _ & _ & P5).
+    (* the atom is the target of x, or its source when x is written inverted *)
+    assert (La : lex_target g a = true /\
+                 (existsb is_aln (epis_of g x) = true -> exists s, a = AStr s /\ lex_text s = true)).
+    { destruct C as [(Hi & _ & _ & a' & Ea & Ka & _)|(Hi & _ & _ & _ & _ & [[_ Ka]|[_ Ka]])].
+      - inversion Ea; subst a'. split; [rewrite (lex_target_akey g _ _ Ka); exact L3|].
+        intros X. specialize (P5 X). destruct (ttgt x) as [|s|? ?] eqn:T; try discriminate.
+        exists s. split; [apply akey_astr; exact Ka|exact L3].
+      - cbn [ctgt_atom] in Ka. split; [rewrite (lex_target_akey g _ _ Ka); exact L3|].
+        intros X. specialize (P5 X). destruct (ttgt x) as [|s|? ?] eqn:T; try discriminate.
+        exists s. split; [apply akey_astr; exact Ka|exact L3].
+      - cbn [ctgt_atom] in Ka. split; [rewrite (lex_target_akey g _ _ Ka); apply lex_var_target; exact L1|].
+        intros _. destruct (tsrc x) as [|s|? ?] eqn:T; try discriminate.
+        exists s. split; [apply akey_astr; exact Ka|]. unfold lex_text. simpl in L1. rewrite L1. reflexivity. }
+    destruct La as [La Hh]. split; [exact La|].
+    unfold dec_atom. rewrite aln_text_eq, Eep, existsb_aln_keep, filter_aln_keep.
+    destruct (one_marker is_aln (epis_of g x)) as [[F T]|(e & i & q & F & He & Pq & T)];
+      [intros [| | |] He; try discriminate He; eauto|exact P1|exact P2| |].
+    - rewrite (proj2 (existsb_filter_nil is_aln (epis_of g x)) F), F.
+      apply (lex_target_wf g a La).
+    - assert (X : existsb is_aln (epis_of g x) = true).
+      { destruct (existsb is_aln (epis_of g x)) eqn:X; [reflexivity|].
+        apply existsb_filter_nil in X. rewrite X in F. discriminate. }
+      assert (Ea : e = Aln i q).
+      { assert (Ie' : In e (filter is_aln (epis_of g x))) by (rewrite F; left; reflexivity).
+        apply filter_In in Ie'. destruct Ie' as [_ R]. destruct He as [-> | ->]; [reflexivity|discriminate]. }
+      rewrite X, T, F. destruct (Hh X) as (s & -> & Ls). cbn [atom_str strfy_atom].
+      destruct (text_decorated s i q Ls Pq) as [W' P']. split; [exact W'|].
+      rewrite P', Ea. reflexivity.
+  Qed.
+  (* ---- the decorated tree read off the store ---- *)
+  Lemma build_branch_ca : forall f' r a ep,
+    build_branch f' st (r, CA a, ep) = (r ++ raln_text ep, TAtom (dec_atom a ep)).
+  Proof. intros. unfold build_branch. rewrite apply_epis_atom. reflexivity. Qed.
+  Lemma build_branch_cn : forall f' r j ep,
+    build_branch f' st (r, CN j, ep) = (r ++ raln_text ep, TNode (build f' st j)).
+  Proof. intros. unfold build_branch. rewrite apply_epis_node. reflexivity. Qed.
+  Lemma build_branch_fst : forall f' r t ep, fst (build_branch f' st (r, t, ep)) = r ++ raln_text ep.
+  Proof. intros f' r [a|j] ep; [rewrite build_branch_ca|rewrite build_branch_cn]; reflexivity. Qed.
+
+  Lemma dec_not_slash : forall f' w es e, In (w, es) st -> In e es ->
+    not_slash (strfy_branch strfy_node (build_branch f' st e)) = negb (is_slash_edge e).
+  Proof.
+    intros f' w es [[r t] ep] Iw Ie. unfold not_slash. rewrite strfy_branch_fst, build_branch_fst.
+    destruct (edge_role w es r t ep Iw Ie) as (_ & _ & _ & Es & _). rewrite Es. reflexivity.
+  Qed.
+
+  Lemma dec_slash_only_first : forall f' w es, In (w, es) st ->
+    slash_only_first (map (strfy_branch strfy_node) (map (build_branch f' st) es)) = true.
+  Proof.
+    intros f' w es Iw.
+    pose proof (roles_only_first m g Wg st os_of Vst Sst Fos' Pos' w es Iw) as R.
+    destruct es as [|e es']; [reflexivity|]. cbn [map slash_only_first].
+    unfold noslash in R. rewrite forallb_forall in R.
+    apply forallb_forall. intros b Ib. apply in_map_iff in Ib. destruct Ib as (b1 & <- & Ib1).
+    apply in_map_iff in Ib1. destruct Ib1 as (e' & <- & Ie').
+    rewrite (dec_not_slash f' w (e :: es') e' Iw (or_intror Ie')). exact (R e' Ie').
+  Qed.
+
+  Lemma build_wf_dec : forall f i, i < length st -> length st - i <= f ->
+    WellFormed.wf_node (strfy_node (build f st i)) = true.
+  Proof.
+    induction f as [|f' IH]; intros i Li Lf; [lia|].
+    destruct (nth_error st i) as [[v es]|] eqn:G; [|apply nth_error_None in G; lia].
+    pose proof (nth_error_In _ _ G) as Iv.
+    rewrite (Configure_content.build_S _ _ _ _ _ G), strfy_node_eq.
+    destruct (node_var_lex m g Wg Lg st Vst v es Iv) as [L1 L2].
+    destruct v as [|s|? ?]; try discriminate. simpl in L1.
+    rewrite Roundtrip_lemmas.wf_node_eq, L1. cbn [andb].
+    apply andb_true_iff. split; [|apply (dec_slash_only_first f' (AStr s) es Iv)].
+    apply forallb_forall. intros b Ib. apply in_map_iff in Ib. destruct Ib as (b1 & <- & Ib1).
+    apply in_map_iff in Ib1. destruct Ib1 as ([[r t] ep] & <- & Ie).
+    destruct (edge_role (AStr s) es r t ep Iv Ie) as (_ & _ & _ & Es & Hs & Hn).
+    destruct t as [a|j].
+    - rewrite build_branch_ca. unfold strfy_branch, WellFormed.wf_branch. cbn [fst snd].
+      destruct (edge_atom (AStr s) es r a ep Iv Ie) as (_ & Wa & _).
+      rewrite Es. destruct (str_eqb r SLASHS) eqn:Sl; [exact Wa|].
+      destruct (Hn eq_refl) as (Wr & _). rewrite Wr. exact Wa.
+    - rewrite build_branch_cn. unfold strfy_branch, WellFormed.wf_branch. cbn [fst snd].
+      rewrite Es. destruct (str_eqb r SLASHS) eqn:Sl.
+      + destruct (Hs eq_refl) as (_ & a & Ha). discriminate.
+      + destruct (Hn eq_refl) as (Wr & _). rewrite Wr. cbn [andb].
+        destruct (wf_up _ _ _ Wst i (AStr s) es (r, CN j, ep) j G Ie eq_refl) as [Lj1 Lj2].
+        apply IH; lia.
+  Qed.
+
+  Lemma build_node_ok_dec : forall f i, i < length st -> length st - i <= f ->
+    node_ok (strfy_node (build f st i)) = true.
+  Proof.
+    induction f as [|f' IH]; intros i Li Lf; [lia|].
+    destruct (nth_error st i) as [[v es]|] eqn:G; [|apply nth_error_None in G; lia].
+    pose proof (nth_error_In _ _ G) as Iv.
+    rewrite (Configure_content.build_S _ _ _ _ _ G), strfy_node_eq, node_ok_eq.
+    apply forallb_forall. intros b Ib. apply in_map_iff in Ib. destruct Ib as (b1 & <- & Ib1).
+    apply in_map_iff in Ib1. destruct Ib1 as ([[r t] ep] & <- & Ie).
+    destruct (edge_role v es r t ep Iv Ie) as (_ & _ & Ok & _).
+    destruct t as [a|j].
+    - rewrite build_branch_ca. unfold strfy_branch, branch_okb. cbn [fst snd target_ok].
+      destruct (edge_atom v es r a ep Iv Ie) as (_ & _ & Pa). rewrite Ok, Pa. reflexivity.
+    - rewrite build_branch_cn. unfold strfy_branch, branch_okb. cbn [fst snd target_ok]. rewrite Ok.
+      destruct (wf_up _ _ _ Wst i v es (r, CN j, ep) j G Ie eq_refl) as [Lj1 Lj2].
+      apply IH; lia.
+  Qed.
+  (* ---- what interpret reads off the decorated tree: the same triples ---- *)
+  Lemma build_node_var : forall (s0 : store) f j v es, nth_error s0 j = Some (v, es) ->
+    node_var (build (S f) s0 j) = v.
+  Proof. intros s0 f j v es G. cbn [build]. rewrite G. reflexivity. Qed.
+
+  Lemma atom_name_dec : forall w es r a ep, In (w, es) st -> In (r, CA a, ep) es ->
+    atom_name (strfy_atom (dec_atom a ep)) = strfy_atom a /\
+    snd (proc_atom (strfy_atom (dec_atom a ep))) = filter is_aln ep /\
+    atom_name (strfy_atom a) = strfy_atom a.
+  Proof.
+    intros w es r a ep Iw Ie. destruct (edge_atom w es r a ep Iw Ie) as (La & _ & Pa).
+    unfold atom_name, proc_atom. rewrite Pa. destruct (lex_target_wf g a La) as [_ P0]. rewrite P0. auto.
+  Qed.
+
+  Definition sbr := strfy_branch strfy_node.
+
+  Lemma build_entries_fst : forall vars f i, i < length st -> length st - i <= f ->
+    map fst (entries m vars (strfy_node (build f st i))) =
+    map fst (entries m vars (strfy_node (build f (erase st) i))).
+  Proof.
+    intros vars. induction f as [|f' IH]; intros i Li Lf; [lia|].
+    destruct (nth_error st i) as [[v es]|] eqn:G; [|apply nth_error_None in G; lia].
+    pose proof (nth_error_In _ _ G) as Iv.
+    assert (G' : nth_error (erase st) i = Some (v, map erase_edge es)).
+    { rewrite nth_error_erase, G. reflexivity. }
+    rewrite (Configure_content.build_S _ _ _ _ _ G), (Configure_content.build_S _ _ _ _ _ G').
+    rewrite !strfy_node_eq, !entries_eq. fold sbr.
+    assert (Inner : forall es', incl es' es ->
+      has_concept (map sbr (map (build_branch f' st) es')) =
+      has_concept (map sbr (map (build_branch f' (erase st)) (map erase_edge es'))) /\
+      map fst (entries_bs m vars v (map sbr (map (build_branch f' st) es'))) =
+      map fst (entries_bs m vars v (map sbr (map (build_branch f' (erase st)) (map erase_edge es'))))).
+    { induction es' as [|[[r t] ep] es' IHe]; intros Hin; [split; reflexivity|].
+      assert (Ie : In (r, t, ep) es) by (apply Hin; left; reflexivity).
+      destruct IHe as [IHc IHt]; [intros y Iy; apply Hin; right; exact Iy|].
+      destruct (edge_role v es r t ep Iv Ie) as (RN & _).
+      cbn [map]. rewrite !has_concept_cons. unfold sbr at 1 3. rewrite !strfy_branch_fst, build_branch_fst.
+      destruct t as [a|j].
+      - change (build_branch f' (erase st) (erase_edge (r, CA a, ep))) with (r, TAtom a).
+        cbn [fst]. rewrite RN, IHc. split; [reflexivity|].
+        rewrite build_branch_ca.
+        change (sbr (r ++ raln_text ep, TAtom (dec_atom a ep))) with (r ++ raln_text ep, TAtom (strfy_atom (dec_atom a ep))).
+        change (sbr (r, TAtom a)) with (r, TAtom (strfy_atom a)).
+        rewrite !entries_bs_atom, !map_cons. cbn [fst]. f_equal; [|exact IHt]. rewrite RN.
+        destruct (atom_name_dec v es r a ep Iv Ie) as (A1 & _ & A2). rewrite A1, A2. reflexivity.
+      - change (build_branch f' (erase st) (erase_edge (r, CN j, ep))) with (r, TNode (build f' (erase st) j)).
+        cbn [fst]. rewrite RN, IHc. split; [reflexivity|].
+        rewrite build_branch_cn.
+        change (sbr (r ++ raln_text ep, TNode (build f' st j))) with (r ++ raln_text ep, TNode (strfy_node (build f' st j))).
+        change (sbr (r, TNode (build f' (erase st) j))) with (r, TNode (strfy_node (build f' (erase st) j))).
+        rewrite !entries_bs_node, !map_cons, !map_app, !map_fst_add_pop_last. cbn [fst].
+        destruct (wf_up _ _ _ Wst i v es (r, CN j, ep) j G Ie eq_refl) as [Lj1 Lj2].
+        f_equal; [|f_equal; [apply IH; lia|exact IHt]]. rewrite RN, !node_var_strfy.
+        destruct f' as [|f'']; [lia|].
+        destruct (nth_error st j) as [[vj esj]|] eqn:Gj; [|apply nth_error_None in Gj; lia].
+        rewrite (build_node_var st f'' j vj esj Gj).
+        rewrite (build_node_var (erase st) f'' j vj (map erase_edge esj)) by (rewrite nth_error_erase, Gj; reflexivity).
+        reflexivity. }
+    destruct (Inner es (incl_refl _)) as [Hc Ht]. rewrite Hc.
+    destruct (has_concept (map sbr (map (build_branch f' (erase st)) (map erase_edge es)))).
+    - exact Ht.
+    - cbn [map fst]. rewrite Ht. reflexivity.
+  Qed.
+  (* ---- ... and where every entry comes from, with its alignments ---- *)
+  Definition Prov (e : epientry) : Prop :=
+    exists x, In x (triples g) /\ kap m (fst e) = Kx m x /\
+      last_such is_raln (snd e) = last_such is_raln (epis_of g x) /\
+      (last_such is_aln (snd e) = last_such is_aln (epis_of g x) \/
+       (last_such is_aln (snd e) = None /\ is_instance x = false /\ is_var g (ttgt x) = true)).
+
+  Lemma last_such_snoc_pop : forall p l, p Pop = false -> last_such p (l ++ [Pop]) = last_such p l.
+  Proof.
+    intros p l H. rewrite last_such_app. unfold last_such at 1. simpl. rewrite H. reflexivity.
+  Qed.
+
+  Lemma Prov_add_pop_last : forall es, Forall Prov es -> Forall Prov (add_pop_last es).
+  Proof.
+    induction es as [|[t l] es IH]; intros F; [constructor|].
+    inversion F as [|? ? Hx Ft]; subst.
+    destruct es as [|e es].
+    - cbn [add_pop_last]. constructor; [|constructor].
+      destruct Hx as (x & Ix & K & R & A). exists x. cbn [fst snd] in *.
+      rewrite !last_such_snoc_pop by reflexivity. auto.
+    - change (add_pop_last ((t, l) :: e :: es)) with ((t, l) :: add_pop_last (e :: es)).
+      constructor; [exact Hx|apply IH; exact Ft].
+  Qed.
+
+  Lemma last_keep : forall p es, (forall e, p e = true -> is_layout e = false) ->
+    last_such p (keep_epis es) = last_such p es.
+  Proof.
+    intros p es H. unfold keep_epis. apply Rearrange_lemmas.last_such_filter.
+    intros e Pe. rewrite (H e Pe). reflexivity.
+  Qed.
+  Lemma last_raln_keep : forall es, last_such is_raln (keep_epis es) = last_such is_raln es.
+  Proof. intros es. apply last_keep. intros [v| |i q|i q] H; try discriminate H; reflexivity. Qed.
+  Lemma last_aln_keep : forall es, last_such is_aln (keep_epis es) = last_such is_aln es.
+  Proof. intros es. apply last_keep. intros [v| |i q|i q] H; try discriminate H; reflexivity. Qed.
+
+  Lemma has_concept_dec : forall f' w es, In (w, es) st ->
+    has_concept (map sbr (map (build_branch f' st) es)) = existsb is_slash_edge es.
+  Proof.
+    intros f' w es Iw.
+    assert (Inner : forall es', incl es' es ->
+      has_concept (map sbr (map (build_branch f' st) es')) = existsb is_slash_edge es').
+    { induction es' as [|[[r t] ep] es' IHe]; intros Hin; [reflexivity|].
+      assert (Ie : In (r, t, ep) es) by (apply Hin; left; reflexivity).
+      cbn [map existsb]. rewrite has_concept_cons, IHe by (intros y Iy; apply Hin; right; exact Iy).
+      f_equal. unfold sbr. rewrite strfy_branch_fst, build_branch_fst.
+      destruct (edge_role w es r t ep Iw Ie) as (RN & _ & _ & _ & _ & Hn). rewrite RN.
+      unfold is_slash_edge. cbn [fst]. destruct (str_eqb r SLASHS) eqn:Sl.
+      - apply cfg_str_eqb_eq in Sl. subst r. reflexivity.
+      - destruct (Hn eq_refl) as (_ & RR & _ & Ni & _). rewrite RR. exact Ni. }
+    apply Inner. apply incl_refl.
+  Qed.
+
+  Lemma synth_prov : forall v es, In (v, es) st -> existsb is_slash_edge es = false ->
+    Prov ((v, INSTANCE, ANone), []).
+  Proof.
+    intros v es Iv NoS.
+    assert (Ic : In v (cless_st st)).
+    { unfold cless_st. apply in_flat_map. exists (v, es). split; [exact Iv|].
+      unfold cless_node. cbn [fst snd]. rewrite NoS. left. reflexivity. }
+    pose proof (cless_match m g Wg Lg st nm os_of Wst Vst Fos' Pos' Own) as CM.
+    apply (Permutation_in _ CM) in Ic. apply in_map_iff in Ic. destruct Ic as (x & Ex & Ix).
+    apply filter_In in Ix. destruct Ix as [Ix U].
+    destruct (unwritten_shape g Lg x Ix U) as (Hi & s & Exs).
+    destruct (printable_parts x Ix) as (_ & _ & _ & P4 & P5).
+    exists x. split; [exact Ix|]. cbn [fst snd].
+    assert (Ev : v = AStr s) by (rewrite <- Ex, Exs; reflexivity).
+    split; [|split].
+    - subst v x. unfold kap, Kx. cbn [tsrc fst]. rewrite !deinvert_eq, !instance_not_inverted, !andb_false_r. reflexivity.
+    - symmetry. apply last_such_none. intros e Ie.
+      destruct (existsb is_raln (epis_of g x)) eqn:X.
+      + rewrite (P4 eq_refl) in Hi. discriminate.
+      + destruct (is_raln e) eqn:R; [|reflexivity].
+        assert (T : existsb is_raln (epis_of g x) = true) by (apply existsb_exists; eauto). congruence.
+    - left. symmetry. apply last_such_none. intros e Ie.
+      destruct (existsb is_aln (epis_of g x)) eqn:X.
+      + specialize (P5 eq_refl). rewrite Exs in P5. discriminate.
+      + destruct (is_aln e) eqn:R; [|reflexivity].
+        assert (T : existsb is_aln (epis_of g x) = true) by (apply existsb_exists; eauto). congruence.
+  Qed.
+
+  Lemma build_prov : forall vars f i, i < length st -> length st - i <= f ->
+    Forall Prov (entries m vars (strfy_node (build f st i))).
+  Proof.
+    intros vars. induction f as [|f' IH]; intros i Li Lf; [lia|].
+    destruct (nth_error st i) as [[v es]|] eqn:G; [|apply nth_error_None in G; lia].
+    pose proof (nth_error_In _ _ G) as Iv.
+    destruct (node_var_lex m g Wg Lg st Vst v es Iv) as [Lv Vv].
+    rewrite (Configure_content.build_S _ _ _ _ _ G), strfy_node_eq, entries_eq. fold sbr.
+    assert (Inner : forall es', incl es' es ->
+      Forall Prov (entries_bs m vars v (map sbr (map (build_branch f' st) es')))).
+    { induction es' as [|[[r t] ep] es' IHe]; intros Hin; [constructor|].
+      assert (Ie : In (r, t, ep) es) by (apply Hin; left; reflexivity).
+      assert (IHt : Forall Prov (entries_bs m vars v (map sbr (map (build_branch f' st) es'))))
+        by (apply IHe; intros y Iy; apply Hin; right; exact Iy).
+      destruct (edge_role v es r t ep Iv Ie) as (RN & RE & _ & _ & Hs & Hn).
+      destruct (edge_class_i v es r t ep Iv Ie) as (x & Ix & Eep & Kk & C).
+      cbn [map].
+      destruct t as [a|j].
+      - rewrite build_branch_ca.
+        change (sbr (r ++ raln_text ep, TAtom (dec_atom a ep))) with (r ++ raln_text ep, TAtom (strfy_atom (dec_atom a ep))).
+        rewrite entries_bs_atom. constructor; [|exact IHt].
+        destruct (atom_name_dec v es r a ep Iv Ie) as (A1 & A2 & A3).
+        destruct (edge_atom v es r a ep Iv Ie) as (La & _).
+        exists x. split; [exact Ix|]. cbn [fst snd]. rewrite RN, RE, A1, A2.
+        split; [|split].
+        + rewrite <- Kk. unfold cedge_triple. cbn [fst snd ctgt_atom]. rewrite <- A3.
+          destruct (str_eqb r SLASHS) eqn:Sl.
+          * apply cfg_str_eqb_eq in Sl. subst r. apply (own_slash m g vars); assumption.
+          * destruct (Hn eq_refl) as (_ & _ & Lr & _ & St). apply (own_atom m g vars); assumption.
+        + rewrite last_raln_split by apply filter_aln_not_raln. rewrite Eep. apply last_raln_keep.
+        + left. rewrite last_aln_split, Eep. apply last_aln_keep.
+      - rewrite build_branch_cn.
+        change (sbr (r ++ raln_text ep, TNode (build f' st j))) with (r ++ raln_text ep, TNode (strfy_node (build f' st j))).
+        rewrite entries_bs_node.
+        destruct (wf_up _ _ _ Wst i v es (r, CN j, ep) j G Ie eq_refl) as [Lj1 Lj2].
+        constructor; [|apply Forall_app; split; [apply Prov_add_pop_last; apply IH; lia|exact IHt]].
+        destruct (nth_error st j) as [[vj esj]|] eqn:Gj; [|apply nth_error_None in Gj; lia].
+        pose proof (nth_error_In _ _ Gj) as Ivj.
+        destruct (node_var_lex m g Wg Lg st Vst vj esj Ivj) as [Lvj Vvj].
+        assert (Nv : node_var (strfy_node (build f' st j)) = vj).
+        { rewrite node_var_strfy. destruct f' as [|f'']; [lia|]. apply (build_node_var st f'' j vj esj Gj). }
+        assert (Na : node_var_at st j = vj) by (eapply node_var_at_nth; exact Gj).
+        destruct (str_eqb r SLASHS) eqn:Sl; [destruct (Hs eq_refl) as (_ & a & Ha); discriminate|].
+        destruct (Hn eq_refl) as (_ & _ & Lr & _ & St).
+        exists x. split; [exact Ix|]. cbn [fst snd]. rewrite RN, RE, Nv.
+        split; [|split].
+        + rewrite <- Kk. unfold cedge_triple. cbn [fst snd ctgt_atom]. rewrite Na.
+          apply own_node; assumption.
+        + rewrite last_raln_split by (intros e [<-|[]]; reflexivity). rewrite Eep. apply last_raln_keep.
+        + right. split.
+          * apply last_such_none. intros e Ie'. apply in_app_or in Ie'.
+            destruct Ie' as [Ie'|[<-|[]]]; [eapply filter_raln_not_aln; exact Ie'|reflexivity].
+          * destruct C as [(_ & _ & _ & a & Ha & _)|(Hi & _ & _ & _ & _ & [[_ Ka]|[Kw _]])]; [discriminate| |].
+            -- split; [exact Hi|]. cbn [ctgt_atom] in Ka. rewrite Na in Ka.
+               rewrite <- (akey_is_var g _ _ Ka). exact Vvj.
+            -- split; [exact Hi|]. rewrite <- (akey_is_var g _ _ Kw). exact Vv. }
+    pose proof (Inner es (incl_refl _)) as F.
+    rewrite (has_concept_dec f' v es Iv).
+    destruct (existsb is_slash_edge es) eqn:X; [exact F|].
+    constructor; [|exact F]. apply (synth_prov v es Iv X).
+  Qed.
 End DecStore.
+
+(* ------------------------------------------------------------------ *)
+(** * The erased store satisfies what Proofs/EndToEnd_lemmas.v needs *)
+
+Lemma Vars_erase : forall g st, Vars g st -> Vars g (erase st).
+Proof.
+  intros g st V w es I. unfold erase in I. apply in_map_iff in I. destruct I as ([w' es'] & E & I).
+  unfold erase_node in E. cbn [fst snd] in E. inversion E; subst. eapply V. exact I.
+Qed.
+
+Lemma slash_edge_erase : forall e, is_slash_edge (erase_edge e) = is_slash_edge e.
+Proof. reflexivity. Qed.
+Lemma is_ca_erase : forall e, is_ca (erase_edge e) = is_ca e.
+Proof. reflexivity. Qed.
+
+Lemma noslash_erase : forall es, noslash (map erase_edge es) = noslash es.
+Proof. induction es as [|e es IH]; [reflexivity|]. unfold noslash in *. simpl. rewrite IH. reflexivity. Qed.
+
+Lemma slash_shape_erase : forall es, slash_shape (map erase_edge es) = slash_shape es.
+Proof.
+  induction es as [|e es IH]; [reflexivity|]. cbn [map slash_shape].
+  rewrite slash_edge_erase, is_ca_erase, IH, noslash_erase. reflexivity.
+Qed.
+
+Lemma Shape_erase : forall st, Shape st -> Shape (erase st).
+Proof.
+  intros st S w es I. unfold erase in I. apply in_map_iff in I. destruct I as ([w' es'] & E & I).
+  unfold erase_node in E. cbn [fst snd] in E. inversion E; subst.
+  rewrite slash_shape_erase. eapply S. exact I.
+Qed.
+
+Lemma owns_erase : forall st v, owns st v -> owns (erase st) v.
+Proof.
+  intros st v (i & w & es & G & E). exists i, w, (map erase_edge es). split; [|exact E].
+  rewrite nth_error_erase, G. reflexivity.
+Qed.
+
+(* ------------------------------------------------------------------ *)
+(** * Lexable graphs with printable alignments are strippable *)
+
+Lemma symbol_host : forall s, wf_symbol s = true -> tilde_free s /\ startswith s [QUOTE] = false.
+Proof.
+  intros s H. destruct s as [|c s]; [discriminate|].
+  unfold wf_symbol in H. apply andb_true_iff in H. destruct H as [_ N].
+  split; [apply (names_no_tilde _ N)|].
+  simpl in N. apply andb_true_iff in N. destruct N as [Nc _].
+  destruct (is_name_chars c Nc) as (Q & _). cbn [startswith]. rewrite eqc_sym. unfold QUOTE. rewrite Q. reflexivity.
+Qed.
+
+Lemma text_host : forall s, lex_text s = true -> aln_host (AStr s).
+Proof.
+  intros s H. unfold lex_text in H. apply orb_true_iff in H. destruct H as [H|H].
+  - left. apply symbol_host. exact H.
+  - right. unfold lex_string in H. apply andb_true_iff in H. destruct H as [H _].
+    apply andb_true_iff in H. destruct H as [H _]. unfold complete_string in H.
+    apply andb_true_iff in H. exact H.
+Qed.
+
+Lemma lexable_strippable : forall g, atoms_lexable g = true -> alns_printable g = true ->
+  aln_strippable g.
+Proof.
+  intros g L AP. constructor.
+  - intros x Ix. destruct (lex_triple g L x Ix) as (_ & L2 & _). apply lex_role_tilde_free. exact L2.
+  - intros x Ix. destruct (lex_triple g L x Ix) as (L1 & _ & L3). split.
+    + destruct (tsrc x) as [|s|? ?]; try discriminate. simpl in L1.
+      symmetry. eapply process_atomic_strips. apply symbol_process. exact L1.
+    + destruct (ttgt x) as [|s|? ?]; try reflexivity. simpl in L3.
+      symmetry. eapply process_atomic_strips. apply text_process. exact L3.
+  - intros x e Ix Ie Ae. destruct (lex_triple g L x Ix) as (L1 & _ & L3).
+    unfold alns_printable in AP. rewrite forallb_forall in AP. specialize (AP x Ix).
+    unfold epis_printable in AP.
+    apply andb_true_iff in AP. destruct AP as [P P5]. apply andb_true_iff in P. destruct P as [P _].
+    apply andb_true_iff in P. destruct P as [P _]. apply andb_true_iff in P. destruct P as [P1 _].
+    assert (X : existsb is_aln (epis_of g x) = true) by (apply existsb_exists; eauto).
+    rewrite X in P5. simpl in P5.
+    split; [|split].
+    + destruct (tsrc x) as [|s|? ?]; try discriminate. simpl in L1. left. apply symbol_host. exact L1.
+    + destruct (ttgt x) as [|s|? ?]; try discriminate. simpl in L3. apply text_host. exact L3.
+    + rewrite forallb_forall in P1. specialize (P1 e Ie).
+      destruct e as [v| |i q|i q]; try discriminate Ae. simpl in P1. simpl.
+      apply aln_print_no_quote. exact P1.
+Qed.
+
+(* ------------------------------------------------------------------ *)
+(** * Keys *)
+
+Lemma kap_cong : forall m a b, triple_eqb a b = true -> kap m a = kap m b.
+Proof.
+  intros m [[s r] t] [[s' r'] t'] E. apply triple_eqb_parts' in E. destruct E as (E1 & E2 & E3).
+  cbn [tsrc trole ttgt fst snd] in *. subst r'.
+  unfold kap. rewrite <- (tkey_deinvert_keys m s r t), <- (tkey_deinvert_keys m s' r t').
+  rewrite (akey_eqb _ _ E1), (akey_eqb _ _ E3). reflexivity.
+Qed.
+
+Lemma Kx_textual : forall m x, Kx m x = kap m (strfy_triple x).
+Proof.
+  intros m [[s r] t]. unfold Kx, kap, strfy_triple. cbn [tsrc trole ttgt fst snd].
+  apply strfy_tkey_deinvert.
+Qed.
+
+Lemma find_nodup_key : forall {A B} (f : A -> B) (P : A -> bool) l x,
+  NoDup (map f l) -> In x l -> P x = true -> (forall y, In y l -> P y = true -> f y = f x) ->
+  find P l = Some x.
+Proof.
+  intros A B f P. induction l as [|a l IH]; intros x N I Px H; [contradiction|].
+  simpl in N. inversion N as [|? ? Na Nl]; subst. cbn [find].
+  destruct (P a) eqn:Pa.
+  - destruct I as [->|I]; [reflexivity|].
+    exfalso. apply Na. rewrite (H a (or_introl eq_refl) Pa). apply in_map. exact I.
+  - destruct I as [->|I]; [congruence|].
+    apply IH; [exact Nl|exact I|exact Px|]. intros y Iy Py. apply H; [right; exact Iy|exact Py].
+Qed.
+
+(* ------------------------------------------------------------------ *)
+(** * The content of a graph WITH its alignments *)
+
+Definition aln_of (g : graph) (t : triple) : option epi := last_such is_aln (epis_of g t).
+Definition raln_of (g : graph) (t : triple) : option epi := last_such is_raln (epis_of g t).
+
+(* every triple (up to one deinversion, constants by written form) with the
+   alignment and the role alignment the surface functions report for it *)
+Definition annot (m : model) (g : graph) : list (triple * option epi * option epi) :=
+  map (fun t => (kap m t, aln_of g t, raln_of g t)) (triples g).
+
+(* [g'] carries the alignments of [g]: its annotated content is that of [g]
+   (numbers as text), except that the alignment of some EDGES -- non-instance
+   triples whose target is a variable: those written with a nested node -- is
+   dropped ([lost = true]); role alignments are never dropped *)
+Definition alignments_kept (m : model) (g g' : graph) : Prop :=
+  exists ys : list (triple * bool),
+    map fst ys = triples g /\
+    (forall x l, In (x, l) ys -> l = true -> is_instance x = false /\ is_var g (ttgt x) = true) /\
+    Permutation (annot m g')
+      (map (fun xl : triple * bool =>
+              (Kx m (fst xl), (if snd xl then None else aln_of g (fst xl)), raln_of g (fst xl))) ys).
+
+Definition ann_entry (m : model) (e : epientry) : triple * option epi * option epi :=
+  (kap m (fst e), last_such is_aln (snd e), last_such is_raln (snd e)).
+
+Lemma annot_entries : forall m es top meta,
+  forallb colon_triple (map fst es) = true -> NoDup (map (fun e : epientry => kap m (fst e)) es) ->
+  annot m (mk_graph (map fst es) top (epimap_of es) meta) = map (ann_entry m) es.
+Proof.
+  intros m es top meta C N. unfold annot. rewrite (mk_graph_triples_id _ _ _ _ C). rewrite map_map.
+  apply map_ext_in. intros e Ie. unfold ann_entry, aln_of, raln_of, epis_of.
+  change (epidata (mk_graph (map fst es) top (epimap_of es) meta)) with (epimap_of es).
+  rewrite epimap_lookup.
+  rewrite (find_nodup_key (fun e0 : epientry => kap m (fst e0)) _ es e N Ie).
+  - reflexivity.
+  - destruct e as [[[s r] t] l]. cbn [fst]. unfold triple_eqb. cbn [tsrc trole ttgt fst snd].
+    rewrite !atom_eqb_refl, cfg_str_eqb_refl. reflexivity.
+  - intros y Iy Py. symmetry. apply kap_cong. exact Py.
+Qed.
+
+(* matching entries with the triples of the graph, position by position *)
+Lemma match_entries : forall m g (es : list epientry) xs,
+  NoDup (map (Kx m) (triples g)) ->
+  map (fun e : epientry => kap m (fst e)) es = map (Kx m) xs ->
+  (forall x, In x xs -> In x (triples g)) ->
+  Forall (fun e : epientry =>
+    exists x, In x (triples g) /\ kap m (fst e) = Kx m x /\
+      last_such is_raln (snd e) = raln_of g x /\
+      (last_such is_aln (snd e) = aln_of g x \/
+       (last_such is_aln (snd e) = None /\ is_instance x = false /\ is_var g (ttgt x) = true))) es ->
+  exists ys : list (triple * bool),
+    map fst ys = xs /\
+    (forall x l, In (x, l) ys -> l = true -> is_instance x = false /\ is_var g (ttgt x) = true) /\
+    map (ann_entry m) es =
+    map (fun xl : triple * bool =>
+           (Kx m (fst xl), (if snd xl then None else aln_of g (fst xl)), raln_of g (fst xl))) ys.
+Proof.
+  intros m g es. induction es as [|e es IH]; intros xs N E Hin F.
+  - destruct xs; [|discriminate]. exists []. split; [reflexivity|]. split; [intros x l []|reflexivity].
+  - destruct xs as [|x0 xs]; [discriminate|]. cbn [map] in E.
+    pose proof (f_equal (@tl _) E) as E1. pose proof (f_equal (hd (kap m (fst e))) E) as E0.
+    cbn [hd tl] in E0, E1. clear E.
+    inversion F as [|? ? He Ft]; subst.
+    destruct (IH xs N E1 (fun y Iy => Hin y (or_intror Iy)) Ft) as (ys & Y1 & Y2 & Y3).
+    destruct He as (x & Ix & K & R & A).
+    assert (Ex : x = x0).
+    { apply (NoDup_map_In_inj (Kx m) (triples g)); [exact N|exact Ix|apply Hin; left; reflexivity|].
+      rewrite <- K. exact E0. }
+    subst x0.
+    destruct A as [A|(A & Hi & Hv)].
+    + exists ((x, false) :: ys). split; [cbn [map fst]; rewrite Y1; reflexivity|]. split.
+      * intros y l [Iy|Iy] Hl; [inversion Iy; subst; discriminate|eapply Y2; eassumption].
+      * cbn [map fst snd]. rewrite <- Y3. unfold ann_entry. rewrite K, R, A. reflexivity.
+    + exists ((x, true) :: ys). split; [cbn [map fst]; rewrite Y1; reflexivity|]. split.
+      * intros y l [Iy|Iy] Hl; [inversion Iy; subst; auto|eapply Y2; eassumption].
+      * cbn [map fst snd]. rewrite <- Y3. unfold ann_entry. rewrite K, R, A. reflexivity.
+Qed.
+
+(* ------------------------------------------------------------------ *)
+(** * Assembly *)
+
+Section AssemblyAln.
+  Variable m : model.
+  Variable g : graph.
+  Hypothesis Wg : wf_graph m g.
+  Hypothesis Lg : atoms_lexable g = true.
+  Hypothesis Mg : wf_meta (gmeta g) = true.
+  Hypothesis Dm : deinverts m = true.
+  Hypothesis PV : pushes_name_variables g.
+  Hypothesis AP : alns_printable g = true.
+
+  Theorem roundtrip_core_aln : forall top tp i c,
+    requested_top g top = Some tp -> connected g tp ->
+    exists s t, encode_top m i c g top = Ok s /\ parse s = Ok t /\
+      exists g', interpret m t = Ok g' /\ graph_eq m g' (retop (textual g) tp) /\
+        (NoDup (map (kap m) (triples (textual g))) -> alignments_kept m g g').
+  Proof.
+    intros top tp i c RT Conn.
+    pose proof (wf_nonempty m g Wg) as NE. pose proof (wf_roles m g Wg) as RC.
+    pose proof (wf_invertible m g Wg) as RI.
+    pose proof (lexable_strippable g Lg AP) as AS.
+    destruct (configure_complete m g top tp RT Conn (wf_named m g Wg) RI RC PV) as [t0 E].
+    destruct (configure_structure_aln m g top t0 E NE RC PV)
+      as (tp' & st & nm & RT' & Et & Wst & Hroot & Vst & Sst & Own & ios & Fos & Pos).
+    assert (Etp : tp' = tp) by (rewrite RT in RT'; inversion RT'; reflexivity).
+    rewrite Etp in Hroot. clear Etp RT' tp'.
+    set (root := build (S (length st)) st 0) in *.
+    set (st0 := erase st).
+    set (root0 := build (S (length st)) st0 0).
+    set (os := os_of ios).
+    pose proof (Fos' m g ios Fos) as F0. fold os in F0.
+    pose proof (Pos' st ios Pos) as P0'. fold os in P0'.
+    assert (P0 : Permutation (store_triples st0) (concat os)).
+    { unfold st0. rewrite store_triples_erase. exact P0'. }
+    pose proof (WF_erase _ _ _ Wst) as W0. fold st0 in W0.
+    pose proof (eps_store_erase st) as E0. fold st0 in E0.
+    pose proof (Vars_erase g st Vst) as V0. fold st0 in V0.
+    pose proof (Shape_erase st Sst) as S0. fold st0 in S0.
+    assert (Own0 : forall x, In x (triples g) -> is_instance x = true -> owns st0 (tsrc x)).
+    { intros x Ix Hi. apply owns_erase. apply Own; assumption. }
+    assert (L0 : length st0 = length st) by apply erase_length.
+    pose proof (items_strippable m g st ios AS Fos Pos) as HS.
+    assert (R0 : root0 = strip_aln_node root).
+    { unfold root0, root, st0. symmetry. apply build_strip. exact HS. }
+    destruct (tree_of_store st0 nm W0 E0) as (PT & PVars & HV). rewrite L0 in PT, PVars, HV.
+    fold root0 in PT, PVars, HV.
+    pose proof (wf_pos _ _ _ Wst) as Lpos.
+    assert (Good : good_node m g root0 = true).
+    { unfold root0. eapply (build_good m g Wg Lg st0 nm os); try eassumption; rewrite ?L0; lia. }
+    assert (HVr : node_var root = tp).
+    { rewrite <- strip_node_var, <- R0, HV. unfold node_var_at, st0. rewrite erase_map_fst. exact Hroot. }
+    assert (Ltp : lex_var tp = true).
+    { rewrite <- HVr, <- strip_node_var, <- R0. apply (good_node_var m g root0 Good). }
+    assert (TV : tree_vars root = tree_vars root0) by (rewrite R0, strip_tree_vars; reflexivity).
+    (* the text *)
+    assert (Fmt : format i c t0 = format i c (strfy_tree t0)).
+    { subst t0. unfold format, strfy_tree. cbn [troot tmeta]. fold root. rewrite tree_vars_strfy.
+      f_equal. f_equal. f_equal. symmetry. apply (format_numok g).
+      - rewrite TV. destruct c; [apply (good_vars_ok m); exact Good|]. intros a M. discriminate.
+      - rewrite <- numok_strip, <- R0. apply (good_numok m). exact Good. }
+    assert (WT : WellFormed.wf_tree (strfy_tree t0) = true).
+    { subst t0. unfold WellFormed.wf_tree, strfy_tree. cbn [troot tmeta]. rewrite Mg. cbn [andb]. fold root.
+      eapply (build_wf_dec m g); try eassumption; lia. }
+    exists (format i c t0), (strfy_tree t0).
+    split; [unfold encode_top; rewrite E; reflexivity|].
+    split; [rewrite Fmt; apply parse_format_roundtrip; exact WT|].
+    (* the graph read back *)
+    set (vars := tree_vars (strfy_node root)).
+    set (es := entries m vars (strfy_node root)).
+    set (es0 := entries m vars (strfy_node root0)).
+    assert (D5 : map fst es = map fst es0).
+    { unfold es, es0, root, root0, st0.
+      eapply (build_entries_fst m g); try eassumption; lia. }
+    assert (IN : interp_node m vars (strfy_node root) = Ok (map fst es, es)).
+    { apply (Configure_fast.interp_node_spec m vars (strfy_node root)).
+      eapply (build_node_ok_dec m g); try eassumption; lia. }
+    assert (TopE : (match node_var (strfy_node root) with ANone => None | v => Some v end) = Some tp).
+    { rewrite node_var_strfy, HVr. destruct tp; try discriminate; reflexivity. }
+    set (g' := mk_graph (map fst es) (Some tp) (epimap_of es) (gmeta g)).
+    assert (INT : interpret m (strfy_tree t0) = Ok g').
+    { subst t0. unfold interpret, strfy_tree. cbn [troot tmeta]. fold root. fold vars. rewrite IN.
+      cbn [bind]. rewrite TopE. reflexivity. }
+    assert (Col : forallb colon_triple (map fst es) = true).
+    { rewrite D5. unfold es0. apply (colon_good m g). exact Good. }
+    assert (TS : triples g' = map fst es) by (apply mk_graph_triples_id; exact Col).
+    assert (PVr : Permutation (node_all_vars root) (map fst st)).
+    { rewrite <- strip_all_vars, <- R0. unfold st0 in PVars. rewrite erase_map_fst in PVars. exact PVars. }
+    (* same triples, as in the marker-free case *)
+    assert (PTr : Permutation (map (kap m) (map fst es)) (map (kap m) (map strfy_triple (triples g)))).
+    { rewrite D5.
+      pose proof (Eperm_all m g vars root0 Good) as P1. fold es0 in P1.
+      eapply perm_trans; [exact P1|].
+      assert (Pc : Permutation (cless root0) (map tsrc (filter unwritten (triples g)))).
+      { unfold root0. rewrite <- L0.
+        eapply perm_trans; [apply (tree_cless st0 nm W0 E0)|].
+        apply (cless_match m g Wg Lg st0 nm os); assumption. }
+      assert (Pt : Permutation (map (tau m) (node_branch_triples root0))
+                               (map strfy_triple (graph_content m g))).
+      { pose proof (configure_content_deinverted_aln m g top t0 E NE RC AS Dm RI) as Pcd.
+        subst t0. unfold tree_triples, strip_aln_tree in Pcd. cbn [troot] in Pcd. fold root in Pcd.
+        rewrite <- R0 in Pcd.
+        unfold tree_content in Pcd. apply (Permutation_map strfy_triple) in Pcd.
+        rewrite map_map in Pcd. exact Pcd. }
+      eapply perm_trans; [apply Permutation_app; [apply Permutation_map; exact Pc|exact Pt]|].
+      eapply perm_trans; [apply Permutation_app_comm|]. apply Permutation_sym.
+      eapply perm_trans; [apply Permutation_map, Permutation_map, (filter_split_perm is_written)|].
+      rewrite !map_app. apply Permutation_app.
+      + unfold graph_content. rewrite !map_map. apply Permutation_refl'. apply map_ext.
+        intros [[s r] t]. unfold kap, strfy_triple at 1. cbn [tsrc trole ttgt fst snd].
+        symmetry. apply strfy_tkey_deinvert.
+      + rewrite !map_map. apply Permutation_refl'. apply map_ext_in. intros x Ix.
+        apply filter_In in Ix. destruct Ix as [Ix U].
+        destruct (unwritten_shape g Lg x Ix U) as (_ & s & ->).
+        unfold kap, synth, strfy_triple. cbn [tsrc trole ttgt fst snd strfy_atom].
+        rewrite deinvert_eq, instance_not_inverted, andb_false_r. reflexivity. }
+    exists g'. split; [exact INT|]. split; [split; [|split]|].
+    - reflexivity.
+    - intros a.
+      assert (L : mem atom_eqb a (variables g') = is_var g a).
+      { destruct (interpret_is_reading m (strfy_tree t0)) as [(r & g0 & Rd & I0 & Ag)|[[_ F]|[_ F]]];
+          try (rewrite INT in F; discriminate).
+        rewrite INT in I0. inversion I0; subst g0.
+        destruct Ag as (_ & _ & Av & _). rewrite Av.
+        unfold reading in Rd. destruct (surface_check (troot (strfy_tree t0))); try discriminate.
+        cbn [bind] in Rd. inversion Rd; subst r. cbn [r_vars reading_of].
+        subst t0. unfold strfy_tree. cbn [troot]. fold root.
+        change (all_node_vars (strfy_node root)) with (node_all_vars (strfy_node root)).
+        rewrite all_vars_strfy, (mem_perm _ _ _ PVr).
+        destruct (is_var g a) eqn:V.
+        - destruct (wf_var_is_source m g a Wg V) as (x & Ix & Hi & Ex).
+          destruct (Own x Ix Hi) as (k & w & esw & Gk & Ew).
+          apply mem_in_eqb. exists w. split.
+          + apply in_map_iff. exists (w, esw). split; [reflexivity|]. eapply nth_error_In; exact Gk.
+          + eapply atom_eqb_trans; [|exact Ew]. rewrite atom_eqb_sym. exact Ex.
+        - destruct (mem atom_eqb a (map fst st)) eqn:M; [|reflexivity].
+          apply mem_in_eqb in M. destruct M as (w & Iw & Ew). apply in_map_iff in Iw.
+          destruct Iw as ([w' esw] & <- & Iw). cbn [fst] in Ew.
+          rewrite (is_var_cong g _ _ Ew), (Vst _ _ Iw) in V. discriminate. }
+      rewrite L. unfold variables, retop, textual. cbn [triples gtop].
+      rewrite mem_dedup, mem_app, (srcs_textual g Lg), (mem_sources m g Wg).
+      destruct (is_var g a) eqn:V; [reflexivity|]. cbn [orb mem existsb]. rewrite orb_false_r.
+      destruct (atom_eqb a tp) eqn:Et'; [|reflexivity].
+      destruct Conn as [Vtp _]. rewrite (is_var_cong g _ _ Et'), Vtp in V. discriminate.
+    - rewrite TS. unfold retop, textual. cbn [triples]. exact PTr.
+    - (* the alignments *)
+      intros ND. unfold textual in ND. cbn [triples] in ND.
+      assert (NDk : NoDup (map (Kx m) (triples g))).
+      { rewrite map_map in ND. erewrite map_ext; [exact ND|]. intros x. apply Kx_textual. }
+      assert (PK : Permutation (map (fun e : epientry => kap m (fst e)) es) (map (Kx m) (triples g))).
+      { replace (map (fun e : epientry => kap m (fst e)) es) with (map (kap m) (map fst es))
+          by (rewrite map_map; reflexivity).
+        eapply perm_trans; [exact PTr|].
+        rewrite map_map. apply Permutation_refl'. apply map_ext. intros x. symmetry. apply Kx_textual. }
+      assert (NDe : NoDup (map (fun e : epientry => kap m (fst e)) es)).
+      { eapply Permutation_NoDup; [apply Permutation_sym; exact PK|exact NDk]. }
+      destruct (Permutation_map_inv _ _ PK) as (xs & Exs & Pxs).
+      assert (PR : Forall (Prov m g) es).
+      { unfold es, root. eapply (build_prov m g); try eassumption; lia. }
+      destruct (match_entries m g es xs NDk Exs) as (ys1 & Y1 & Y2 & Y3).
+      { intros x Ix. eapply Permutation_in; [apply Permutation_sym; exact Pxs|exact Ix]. }
+      { exact PR. }
+      assert (Pys : Permutation (triples g) (map fst ys1)) by (rewrite Y1; exact Pxs).
+      destruct (Permutation_map_inv _ _ Pys) as (ys & Eys & Pyy).
+      exists ys. split; [symmetry; exact Eys|]. split.
+      + intros x l I Hl. eapply Y2; [|exact Hl]. eapply Permutation_in; [apply Permutation_sym; exact Pyy|exact I].
+      + unfold g'. rewrite (annot_entries m es (Some tp) (gmeta g) Col NDe), Y3.
+        apply Permutation_map. exact Pyy.
+  Qed.
+End AssemblyAln.
+
+(* ------------------------------------------------------------------ *)
+(** * [annot] speaks about what surface.alignments / role_alignments return *)
+
+Definition keys_distinct (ed : dict triple (list epi)) : Prop :=
+  forall t, length (filter (fun kv : triple * list epi => triple_eqb t (fst kv)) ed) <= 1.
+
+Lemma dmem_filter_nil : forall (V : Type) t (d : dict triple V),
+  dmem triple_eqb t d = false -> filter (fun kv : triple * V => triple_eqb t (fst kv)) d = [].
+Proof.
+  intros V t d. unfold dmem. induction d as [|[k v] d IH]; intros H; [reflexivity|].
+  simpl in *. destruct (triple_eqb t k); [discriminate|]. apply IH. exact H.
+Qed.
+
+Lemma epimap_distinct : forall es, keys_distinct (epimap_of es).
+Proof.
+  intros es. unfold epimap_of. change (fold_left _ es []) with (fold_left epistep es []).
+  assert (G : forall acc, keys_distinct acc -> keys_distinct (fold_left epistep es acc)).
+  { induction es as [|e es IH]; intros acc H; [exact H|].
+    cbn [fold_left]. apply IH. unfold epistep. destruct (dmem triple_eqb (fst e) acc) eqn:D; [exact H|].
+    intros t. rewrite filter_app, app_length. cbn [filter].
+    destruct (triple_eqb t (fst e)) eqn:Et.
+    - rewrite (dmem_filter_nil _ t acc) by (rewrite (dmem_congr _ _ _ acc Et); exact D). simpl. lia.
+    - simpl. specialize (H t). lia. }
+  apply G. intros t. simpl. lia.
+Qed.
+
+Lemma dget_get_alignments_none : forall p ed top ts meta t,
+  filter (fun kv : triple * list epi => triple_eqb t (fst kv)) ed = [] ->
+  dget triple_eqb t (get_alignments p (mkGraph ts top ed meta)) = None.
+Proof.
+  intros p ed top ts meta t. unfold get_alignments. cbn [epidata].
+  induction ed as [|[k v] ed IH]; intros H; [reflexivity|].
+  cbn [filter fst] in H. destruct (triple_eqb t k) eqn:E; [discriminate|].
+  cbn [flat_map snd fst]. destruct (last_such p v); cbn [app dget]; [rewrite E|]; apply IH; exact H.
+Qed.
+
+Lemma alignments_lookup : forall p ts top ed meta t, keys_distinct ed ->
+  dget triple_eqb t (get_alignments p (mkGraph ts top ed meta)) =
+  last_such p (epis_of (mkGraph ts top ed meta) t).
+Proof.
+  intros p ts top ed meta t. unfold epis_of, get_alignments. cbn [epidata].
+  induction ed as [|[k v] ed IH]; intros KD; [reflexivity|].
+  cbn [flat_map fst snd dget].
+  assert (KD' : keys_distinct ed).
+  { intros t'. specialize (KD t'). cbn [filter fst] in KD. destruct (triple_eqb t' k); simpl in KD; lia. }
+  destruct (triple_eqb t k) eqn:E.
+  - assert (Z : filter (fun kv : triple * list epi => triple_eqb t (fst kv)) ed = []).
+    { specialize (KD t). cbn [filter fst] in KD. rewrite E in KD. simpl in KD.
+      destruct (filter (fun kv : triple * list epi => triple_eqb t (fst kv)) ed); [reflexivity|simpl in KD; lia]. }
+    destruct (last_such p v) as [e|] eqn:LS; cbn [app dget].
+    + rewrite E. reflexivity.
+    + apply (dget_get_alignments_none p ed top ts meta t Z).
+  - destruct (last_such p v) as [e|]; cbn [app dget]; [rewrite E|]; apply IH; exact KD'.
+Qed.
+
+Theorem interpret_alignments_read : forall m t g', interpret m t = Ok g' ->
+  forall x, dget triple_eqb x (alignments g') = aln_of g' x /\
+            dget triple_eqb x (role_alignments g') = raln_of g' x.
+Proof.
+  intros m t g' H x. unfold interpret in H.
+  destruct (interp_node m (tree_vars (troot t)) (troot t)) as [[ts es]| | | | | | | |]; try discriminate.
+  cbn [bind] in H. inversion H; subst g'. clear H.
+  unfold alignments, role_alignments, aln_of, raln_of, mk_graph.
+  split; apply alignments_lookup; apply epimap_distinct.
+Qed.
+
+(* ------------------------------------------------------------------ *)
+(** * The end-to-end statements of C03 with alignment markers *)
+
+(* the triples of the graph, numbers read as text, are distinct up to one
+   deinversion: no edge is stated twice, once in each direction *)
+Definition distinct_edges (m : model) (g : graph) : Prop :=
+  NoDup (map (fun t => tkey (deinvert m t)) (triples (textual g))).
+
+Theorem e2e_c03x_roundtrip : forall m g top tp i c,
+  wf_graph m g -> requested_top g top = Some tp -> connected g tp ->
+  pushes_name_variables g -> deinverts m = true ->
+  atoms_lexable g = true -> wf_meta (gmeta g) = true -> alns_printable g = true ->
+  exists s t, encode_top m i c g top = Ok s /\ parse s = Ok t /\
+    exists g', interpret m t = Ok g' /\ graph_eq m g' (retop (textual g) tp) /\
+      (distinct_edges m g -> alignments_kept m g g').
+Proof.
+  intros m g top tp i c W RT Cn PV Dm Lg Mg AP.
+  exact (roundtrip_core_aln m g W Lg Mg Dm PV AP top tp i c RT Cn).
+Qed.
+
+Theorem e2e_c03x_decode_encode : forall m g top tp i c,
+  wf_graph m g -> requested_top g top = Some tp -> connected g tp ->
+  pushes_name_variables g -> deinverts m = true ->
+  atoms_lexable g = true -> wf_meta (gmeta g) = true -> alns_printable g = true ->
+  exists s g', encode_top m i c g top = Ok s /\ decode m s = Ok g' /\
+    graph_eq m g' (retop (textual g) tp) /\
+    (distinct_edges m g -> alignments_kept m g g').
+Proof.
+  intros m g top tp i c W RT Cn PV Dm Lg Mg AP.
+  destruct (e2e_c03x_roundtrip m g top tp i c W RT Cn PV Dm Lg Mg AP) as (s & t & E & P & g' & I & Q & A).
+  exists s, g'. split; [exact E|]. split; [unfold decode; rewrite P; exact I|]. split; [exact Q|exact A].
+Qed.
+
+(* when no alignment sits on an edge whose target is a variable, nothing is lost *)
+Definition alns_on_atoms (g : graph) : bool :=
+  forallb (fun x => negb (existsb is_aln (epis_of g x)) || is_instance x || negb (is_var g (ttgt x)))
+          (triples g).
+
+Definition annot_txt (m : model) (g : graph) : list (triple * option epi * option epi) :=
+  map (fun x => (Kx m x, aln_of g x, raln_of g x)) (triples g).
+
+Lemma kept_all : forall m g g', alns_on_atoms g = true -> alignments_kept m g g' ->
+  Permutation (annot m g') (annot_txt m g).
+Proof.
+  intros m g g' OA (ys & Y1 & Y2 & Y3). eapply perm_trans; [exact Y3|].
+  unfold annot_txt. rewrite <- Y1, map_map. apply Permutation_refl'. apply map_ext_in.
+  intros [x l] I. cbn [fst snd]. destruct l; [|reflexivity].
+  destruct (Y2 x true I eq_refl) as [Hi Hv].
+  assert (Ix : In x (triples g)) by (rewrite <- Y1; apply in_map_iff; exists (x, true); auto).
+  unfold alns_on_atoms in OA. rewrite forallb_forall in OA. specialize (OA x Ix).
+  rewrite Hi, Hv in OA. cbn [negb] in OA. rewrite !orb_false_r in OA. apply negb_true_iff in OA.
+  unfold aln_of. f_equal. f_equal. symmetry. apply last_such_none. intros e Ie.
+  destruct (is_aln e) eqn:A; [|reflexivity].
+  assert (T : existsb is_aln (epis_of g x) = true) by (apply existsb_exists; eauto). congruence.
+Qed.
+
+(* ------------------------------------------------------------------ *)
+(** * Non-vacuity *)
+
+Require Import Coq.Strings.String.
+
+Lemma aln_graph_vars : forall v, is_var aln_graph v = true ->
+  atom_eqb v (sym "a") = true \/ atom_eqb v (sym "b") = true.
+Proof.
+  intros v Hv. destruct (is_var_exists _ _ Hv) as (u & Iu & E). vm_compute in Iu.
+  destruct Iu as [<-|[<-|[]]]; auto.
+Qed.
+
+Example aln_graph_e2e_hypotheses :
+  wf_graph default_model aln_graph /\
+  connected aln_graph (sym "a") /\ connected aln_graph (sym "b") /\
+  pushes_name_variables aln_graph /\ deinverts default_model = true /\
+  atoms_lexable aln_graph = true /\ wf_meta (gmeta aln_graph) = true /\
+  alns_printable aln_graph = true /\ distinct_edges default_model aln_graph /\
+  ~ layout_only aln_graph.
+Proof.
+  assert (L : link aln_graph (sym "a") (sym "b")).
+  { exists (tr "a" ":ARG0" "b"). split; [simpl; auto|]. split; [reflexivity|]. split; [reflexivity|].
+    left. split; reflexivity. }
+  assert (L' : link aln_graph (sym "b") (sym "a")).
+  { exists (tr "a" ":ARG0" "b"). split; [simpl; auto|]. split; [reflexivity|]. split; [reflexivity|].
+    right. split; reflexivity. }
+  split; [|split; [|split; [|split; [|split; [|split; [|split; [|split; [|split]]]]]]]]; try reflexivity.
+  - constructor.
+    + discriminate.
+    + intros v Hv. destruct (aln_graph_vars v Hv) as [E|E]; destruct v; try discriminate; reflexivity.
+    + repeat constructor.
+    + intros t H Hi. simpl in H.
+      repeat (destruct H as [H|H]; [subst t; try discriminate Hi; vm_compute; auto|]). contradiction.
+    + intros v Hv. destruct (aln_graph_vars v Hv) as [E|E]; rewrite (instances_of_cong _ _ _ E); reflexivity.
+    + vm_compute. repeat constructor; simpl; intuition discriminate.
+  - split; [reflexivity|]. intros v Hv.
+    destruct (aln_graph_vars v Hv) as [E|E]; rewrite atom_eqb_sym in E.
+    + apply reach_refl. exact E.
+    + apply (reach_cong_r _ _ (sym "b")); [|exact E].
+      apply (reach_step _ _ (sym "a") (sym "b")); [apply reach_refl; reflexivity|exact L].
+  - split; [reflexivity|]. intros v Hv.
+    destruct (aln_graph_vars v Hv) as [E|E]; rewrite atom_eqb_sym in E.
+    + apply (reach_cong_r _ _ (sym "a")); [|exact E].
+      apply (reach_step _ _ (sym "b") (sym "a")); [apply reach_refl; reflexivity|exact L'].
+    + apply reach_refl. exact E.
+  - intros t es pv I Ip. simpl in I.
+    repeat (destruct I as [I|I]; [inversion I; subst; simpl in Ip;
+            repeat (destruct Ip as [Ip|Ip]; [inversion Ip; reflexivity|]); try contradiction|]).
+    contradiction.
+  - unfold distinct_edges. vm_compute. repeat constructor; simpl; intuition discriminate.
+  - apply aln_graph_hypotheses.
+Qed.
+
+(* the round trip of the example from top [b], computed: all three alignments
+   and the role alignment come back, each on its triple *)
+Example aln_graph_roundtrip_computed :
+  exists s g', encode_top default_model (Some 2%Z) false aln_graph (Some (sym "b")) = Ok s /\
+    s = s2l "(b / y
+  :ARG0-of~e.2 (a / x~1
+    :mod ""s""~3
+    :ARG1-of b~e4,5))" /\
+    decode default_model s = Ok g' /\
+    annot default_model g' =
+      [(tr "b" ":instance" "y", None, None);
+       (tr "a" ":ARG0" "b", None, Some (RAln [2%N] (Some (s2l "e."))));
+       (tr "a" ":instance" "x", Some (Aln [1%N] None), None);
+       (tr "a" ":mod" """s""", Some (Aln [3%N] None), None);
+       (tr "b" ":ARG1" "a", Some (Aln [4%N; 5%N] (Some (s2l "e"))), None)] /\
+    Permutation (annot default_model g') (annot_txt default_model aln_graph).
+Proof.
+  eexists. eexists. split; [vm_compute; reflexivity|]. split; [reflexivity|].
+  split; [vm_compute; reflexivity|]. split; [vm_compute; reflexivity|].
+  vm_compute.
+  eapply perm_trans; [apply perm_swap|]. eapply perm_trans; [apply perm_skip, perm_swap|].
+  apply perm_swap.
+Qed.
+
+(* an alignment on an edge whose target is written as a nested node is dropped
+   (the real code logs a warning): from top [a] the edge (a :ARG0 b) opens the
+   node of [b], from top [b] it is written inverted with [a] nested; the same
+   marker on the re-entrancy (b :ARG1 a) survives *)
+Definition aln_lossy_graph : graph :=
+  mkGraph [tr "a" ":instance" "x"; tr "a" ":ARG0" "b"; tr "b" ":instance" "y"; tr "b" ":ARG1" "a"]
+    None
+    [(tr "a" ":ARG0" "b", [Aln [7%N] None; RAln [8%N] None]);
+     (tr "b" ":ARG1" "a", [Aln [9%N] None])] [].
+
+Example aln_lossy_computed :
+  exists s g', encode_top default_model (Some 2%Z) false aln_lossy_graph None = Ok s /\
+    s = s2l "(a / x
+  :ARG0~8 (b / y
+    :ARG1 a~9))" /\
+    decode default_model s = Ok g' /\
+    annot default_model g' =
+      [(tr "a" ":instance" "x", None, None);
+       (tr "a" ":ARG0" "b", None, Some (RAln [8%N] None));
+       (tr "b" ":instance" "y", None, None);
+       (tr "b" ":ARG1" "a", Some (Aln [9%N] None), None)] /\
+    alns_printable aln_lossy_graph = true /\ alns_on_atoms aln_lossy_graph = false.
+Proof.
+  eexists. eexists. split; [vm_compute; reflexivity|]. split; [reflexivity|].
+  split; [vm_compute; reflexivity|]. split; [vm_compute; reflexivity|]. split; reflexivity.
+Qed.
+
+(* ------------------------------------------------------------------ *)
+(** * C05: reconfigure and re-topping keep the content *)
+
+Lemma reach_trans : forall g a b c, reach g a b -> reach g b c -> reach g a c.
+Proof.
+  intros g a b c R1 R2. induction R2 as [c E|b' c R2 IH L].
+  - eapply reach_cong_r; eassumption.
+  - eapply reach_step; [exact IH|exact L].
+Qed.
+
+Lemma reach_sym : forall g a b, reach g a b -> reach g b a.
+Proof.
+  intros g a b R. induction R as [b E|b' c R IH L].
+  - apply reach_refl. rewrite atom_eqb_sym. exact E.
+  - eapply reach_trans; [|exact IH].
+    eapply reach_step; [apply reach_refl; apply atom_eqb_refl|]. apply (link_sym g). exact L.
+Qed.
+
+(* weak connectivity does not depend on the variable it is measured from *)
+Lemma connected_any : forall g a v, connected g a -> is_var g v = true -> connected g v.
+Proof.
+  intros g a v [Va H] Vv. split; [exact Vv|]. intros u Vu.
+  eapply reach_trans; [apply reach_sym; apply H; exact Vv|apply H; exact Vu].
+Qed.
+
+Theorem retop_content_aln : forall m g a v,
+  wf_graph m g -> connected g a -> is_var g v = true ->
+  aln_strippable g -> pushes_name_variables g -> deinverts m = true ->
+  exists t, configure m g (Some v) = Ok t /\
+    node_var (troot t) = v /\
+    NoDup (map akey (tree_node_vars t)) /\
+    Permutation (tree_content m (tree_triples (strip_aln_tree t))) (graph_content m g).
+Proof.
+  intros m g a v W C Vv AS PV Dm.
+  apply (configure_total_and_faithful_aln m g (Some v) v W eq_refl (connected_any g a v C Vv) AS PV Dm).
+Qed.
+
+(* ---- graphs with the same top and a permutation of the triples ---- *)
+Section PermGraph.
+  Variable g g' : graph.
+  Hypothesis PT : Permutation (triples g') (triples g).
+  Hypothesis TOP : gtop g' = gtop g.
+
+  Lemma in_triples_perm : forall x, In x (triples g') <-> In x (triples g).
+  Proof.
+    intros x. split; intros H; [eapply Permutation_in; [exact PT|exact H]|].
+    eapply Permutation_in; [apply Permutation_sym; exact PT|exact H].
+  Qed.
+
+  Lemma is_var_perm : forall v, is_var g' v = is_var g v.
+  Proof.
+    intros v. unfold is_var, variables. rewrite !mem_dedup, TOP. apply mem_perm.
+    apply Permutation_app_tail. apply Permutation_map. exact PT.
+  Qed.
+
+  Lemma link_perm : forall a b, link g a b -> link g' a b.
+  Proof.
+    intros a b (x & Ix & Hi & Vt & Ends). exists x. split; [apply in_triples_perm; exact Ix|].
+    split; [exact Hi|]. split; [rewrite is_var_perm; exact Vt|exact Ends].
+  Qed.
+
+  Lemma reach_perm : forall a b, reach g a b -> reach g' a b.
+  Proof.
+    intros a b R. induction R as [b E|b c R IH L]; [apply reach_refl; exact E|].
+    eapply reach_step; [exact IH|apply link_perm; exact L].
+  Qed.
+
+  Lemma connected_perm : forall tp, connected g tp -> connected g' tp.
+  Proof.
+    intros tp [V H]. split; [rewrite is_var_perm; exact V|].
+    intros v Vv. apply reach_perm. apply H. rewrite <- is_var_perm. exact Vv.
+  Qed.
+
+  Lemma wf_graph_perm : forall m, wf_graph m g -> wf_graph m g'.
+  Proof.
+    intros m W. constructor.
+    - intros E. apply (wf_nonempty m g W). rewrite E in PT. apply Permutation_nil in PT. exact PT.
+    - intros v Vv. apply (wf_named m g W). rewrite <- is_var_perm. exact Vv.
+    - unfold roles_have_colon. eapply Permutation_Forall; [apply Permutation_sym; exact PT|].
+      apply (wf_roles m g W).
+    - intros t It Hi. apply (wf_invertible m g W t); [apply in_triples_perm; exact It|exact Hi].
+    - intros v Vv. unfold instances_of.
+      rewrite (Permutation_length (Permutation_filter' _ _ _ PT)).
+      apply (wf_one_instance m g W). rewrite <- is_var_perm. exact Vv.
+    - eapply Permutation_NoDup; [apply Permutation_sym, Permutation_map; exact PT|].
+      apply (wf_distinct m g W).
+  Qed.
+
+  Lemma graph_content_perm : forall m, Permutation (graph_content m g') (graph_content m g).
+  Proof. intros m. unfold graph_content. apply Permutation_map. apply Permutation_filter'. exact PT. Qed.
+End PermGraph.
+
+Theorem reconfigure_content_aln : forall {K S} (leb : K -> K -> bool) m g top tp
+  (key : option (S -> str -> S * K)) (s : S),
+  wf_graph m g -> requested_top g top = Some tp -> connected g tp ->
+  aln_strippable g -> deinverts m = true ->
+  exists t, reconfigure_st leb m g top key s = Ok t /\
+    node_var (troot t) = tp /\
+    NoDup (map akey (tree_node_vars t)) /\
+    Permutation (tree_content m (tree_triples (strip_aln_tree t))) (graph_content m g).
+Proof.
+  intros K S leb m g top tp key s W RT Conn AS Dm.
+  unfold reconfigure_st.
+  destruct (Rearrange_lemmas.reconfigure_strips_markers leb key s g)
+    as (NL & _ & EP & PT & _ & TOP & _ & _ & _).
+  set (g' := snd (reconfigure_graph_st leb key s g)) in *.
+  assert (RT' : reconfigure_top g top = Some tp) by exact RT.
+  rewrite RT'.
+  assert (PV' : pushes_name_variables g').
+  { intros t es pv I Ip. exfalso. rewrite Forall_forall in NL. specialize (NL (t, es) I).
+    cbn [snd] in NL. rewrite forallb_forall in NL. specialize (NL (Push pv) Ip). discriminate. }
+  assert (AS' : aln_strippable g').
+  { constructor.
+    - intros x Ix. apply (as_roles g AS). apply (in_triples_perm g g' PT). exact Ix.
+    - intros x Ix. apply (as_atoms g AS). apply (in_triples_perm g g' PT). exact Ix.
+    - intros x e Ix Ie Ae. apply (as_hosts g AS x e); [apply (in_triples_perm g g' PT); exact Ix| |exact Ae].
+      rewrite EP in Ie. apply filter_In in Ie. tauto. }
+  destruct (configure_total_and_faithful_aln m g' (Some tp) tp (wf_graph_perm g g' PT TOP m W) eq_refl
+              (connected_perm g g' PT TOP tp Conn) AS' PV' Dm) as (t & E & Hr & Hn & Hc).
+  exists t. split; [exact E|]. split; [exact Hr|]. split; [exact Hn|].
+  eapply perm_trans; [exact Hc|]. apply graph_content_perm. exact PT.
+Qed.
+
+(* reconfigure of the example graph from top [b], computed: the Push / POP
+   markers are dropped, the alignment markers are written *)
+Example reconfigure_content_nonvacuous :
+  exists t, reconfigure (K := bool) (fun _ _ => true) default_model aln_graph (Some (sym "b")) None = Ok t /\
+    format (Some 2%Z) false t =
+    s2l "(b / y
+  :ARG0-of~e.2 (a / x~1
+    :mod ""s""~3
+    :ARG1-of b~e4,5))".
+Proof. eexists. split; vm_compute; reflexivity. Qed.
+
+(* [distinct_edges] cannot be dropped: an edge stated twice, once in each
+   direction, decodes to a DUPLICATED triple whose two copies share one epidata
+   entry (the implementation logs -ignoring epigraph data for duplicate triple-):
+   the role alignment 2 is lost and 1 is reported twice *)
+Definition dup_edge_graph : graph :=
+  mkGraph [tr "a" ":instance" "x"; tr "b" ":instance" "y"; tr "a" ":ARG1-of" "b"; tr "b" ":ARG1" "a"]
+    None
+    [(tr "a" ":ARG1-of" "b", [RAln [1%N] None]); (tr "b" ":ARG1" "a", [RAln [2%N] None])] [].
+
+Example distinct_edges_needed :
+  ~ distinct_edges default_model dup_edge_graph /\
+  alns_printable dup_edge_graph = true /\ atoms_lexable dup_edge_graph = true /\
+  exists s g', encode_top default_model (Some 2%Z) false dup_edge_graph None = Ok s /\
+    s = s2l "(a / x
+  :ARG1-of~1 (b / y)
+  :ARG1-of~2 b)" /\
+    decode default_model s = Ok g' /\
+    annot default_model g' =
+      [(tr "a" ":instance" "x", None, None);
+       (tr "b" ":ARG1" "a", None, Some (RAln [1%N] None));
+       (tr "b" ":instance" "y", None, None);
+       (tr "b" ":ARG1" "a", None, Some (RAln [1%N] None))] /\
+    annot_txt default_model dup_edge_graph =
+      [(tr "a" ":instance" "x", None, None);
+       (tr "b" ":instance" "y", None, None);
+       (tr "b" ":ARG1" "a", None, Some (RAln [1%N] None));
+       (tr "b" ":ARG1" "a", None, Some (RAln [2%N] None))].
+Proof.
+  split; [|split; [reflexivity|split; [reflexivity|]]].
+  - unfold distinct_edges. vm_compute. intros N.
+    inversion N as [|? ? Ha Na]. inversion Na as [|? ? Hb Nb]. inversion Nb as [|? ? Hc Nc].
+    apply Hc. left. reflexivity.
+  - eexists. eexists. split; [vm_compute; reflexivity|]. split; [reflexivity|].
+    split; [vm_compute; reflexivity|]. split; vm_compute; reflexivity.
+Qed.
